@@ -49,7 +49,7 @@ func genCertRef(r *Rng) string {
 	if r.Chance(1, 2) {
 		base += "-" + genDigits(r, 5)
 	}
-	switch r.Intn(10) {
+	switch r.Intn(12) {
 	case 0: // delete one character
 		i := r.Intn(len(base))
 		return base[:i] + base[i+1:]
@@ -69,6 +69,12 @@ func genCertRef(r *Rng) string {
 		return ""
 	case 7:
 		return base + "-" + genDigits(r, 5)
+	case 8:
+		// a sign character where a digit belongs
+		i := []int{0, 14}[r.Intn(2)]
+		if i < len(base) {
+			return base[:i] + string("+-"[r.Intn(2)]) + base[i+1:]
+		}
 	}
 	return base
 }
@@ -92,7 +98,9 @@ func genHistLifecycle(r *Rng) uint16 {
 
 func genSwMaybeBad(r *Rng) SwDesc {
 	d := genSw(r)
-	switch r.Intn(8) {
+	switch r.Intn(9) {
+	case 8:
+		return SwDesc{Nil: true}
 	case 0:
 		d.MVal = nil
 	case 1:
@@ -150,6 +158,9 @@ func genHistOp(r *Rng, obj string) Op {
 			return genSwListOp(r, "add")
 		}
 		return genSwListOp(r, "replace")
+	}
+	if r.Chance(1, 16) {
+		return Op{K: "swslice", A: r.Intn(4)}
 	}
 	if r.Chance(1, 12) {
 		return Op{K: "swedit", A: r.Intn(4), B: r.Intn(3), S: textPool[r.Intn(len(textPool))], X: r.Bytes(hashLens[r.Intn(3)])}
@@ -695,6 +706,29 @@ func execHistClaims(res *Result, t *Trace, obj string, start *ClaimsDesc) {
 			res.Probes["rebuild_compared"]++
 			continue
 		}
+		if op.K == "swslice" {
+			// the caller writes into the SLICE the getter handed out (re-uses it, sorts it, filters it in place):
+			// that slice is the caller's; the claims-set must not change
+			before := fullObs(c)
+			func() {
+				defer func() { _ = recover() }()
+				scs, err := c.GetSoftwareComponents()
+				if err != nil || len(scs) == 0 {
+					return
+				}
+				other := buildSwComponent(SwDesc{MVal: hp(make([]byte, 32)), Signer: hp(make([]byte, 32)), Version: sp("someone else's")})
+				scs[abs(op.A)%len(scs)] = other
+				if len(scs) > 1 {
+					scs[0], scs[len(scs)-1] = scs[len(scs)-1], scs[0]
+				}
+				res.Probes["wrote_into_returned_component_slice"]++
+			}()
+			res.Evals++
+			if after := fullObs(c); after != before {
+				res.violate("C11", "returned-slice-aliases-claims", "", i, "writing into the slice returned by GetSoftwareComponents changed the claims-set:\n before: %s\n after:  %s", before, after)
+			}
+			continue
+		}
 		if op.K == "swedit" {
 			applySwEdit(c, op)
 			swEdits = append(swEdits, op)
@@ -726,6 +760,9 @@ func execHistClaims(res *Result, t *Trace, obj string, start *ClaimsDesc) {
 		afterG := getterList(c)
 		res.Evals++
 		res.logf("%d %s err=%s", i, op.K, okOrErr(err))
+		if err != nil && strings.HasPrefix(err.Error(), "panic: ") {
+			res.violate("C11", "setter-panics", fmt.Sprintf("%s.%s", obj, op.K), i, "%s setter %s did not return: %v (value: %s)", obj, op.K, err, opValue(op))
+		}
 		res.shapeAcc += op.K + okOrErr(err) + ","
 		isClear := op.K == "sw" && op.D == 2
 		// the specific call site (profile.setter, .nil for the nil list) identifies a finding
